@@ -42,6 +42,8 @@ pub struct Step {
 #[derive(Clone, Debug)]
 pub struct CaseInput {
     pub with_paths: bool,
+    /// which additional public compile entry point every observer uses (0..=2)
+    pub entry_variant: u8,
     pub files: Vec<(String, String)>,
     /// names of the BOOL / DINT input globals written before every cycle
     pub bool_inputs: Vec<String>,
@@ -59,7 +61,7 @@ impl CaseInput {
     /// The operation lines of the case (also the child's input file).
     pub fn lines(&self) -> Vec<String> {
         let mut v = Vec::new();
-        v.push(format!("opts {}", if self.with_paths { 1 } else { 0 }));
+        v.push(format!("opts {} {}", if self.with_paths { 1 } else { 0 }, self.entry_variant));
         v.push(format!(
             "inputs {} | {} | {} | {} | {}",
             join(self.bool_inputs.iter(), " "),
@@ -90,6 +92,7 @@ impl CaseInput {
     pub fn parse(text: &str) -> Result<CaseInput, String> {
         let mut c = CaseInput {
             with_paths: false,
+            entry_variant: 0,
             files: Vec::new(),
             bool_inputs: Vec::new(),
             int_inputs: Vec::new(),
@@ -101,7 +104,10 @@ impl CaseInput {
         for line in text.lines() {
             let ws: Vec<&str> = line.split_whitespace().collect();
             match ws.first().copied() {
-                Some("opts") => c.with_paths = ws.get(1) == Some(&"1"),
+                Some("opts") => {
+                    c.with_paths = ws.get(1) == Some(&"1");
+                    c.entry_variant = ws.get(2).and_then(|v| v.parse().ok()).unwrap_or(0);
+                }
                 Some("inputs") => {
                     let rest = line["inputs".len()..].to_string();
                     let parts: Vec<&str> = rest.split('|').collect();
@@ -166,6 +172,10 @@ impl CaseInput {
 
 #[derive(Clone, Debug, Default, PartialEq, Eq)]
 pub struct Observation {
+    /// registry lines for the model ops (only when `Conditions::model_lines`)
+    pub model_lines: Vec<String>,
+    /// containers obtained through the other public compile entry points: (entry point, result)
+    pub extra_compiles: Vec<(String, Result<Vec<u8>, String>)>,
     /// per cycle: (cycle ran Ok and no fault/restart so far, hex of the constant image ranges)
     pub const_images: Vec<(bool, String)>,
     /// self-test: iteration order of a 32-key std HashMap in the observing process/thread
@@ -245,12 +255,68 @@ fn hash_order_probe() -> String {
     join(m.keys(), ".")
 }
 
+/// Conditions of one observation that must not matter: wall-clock pacing, earlier work in the same
+/// thread (compile + run of an unrelated project that also uses labels and JMP), unrelated live
+/// allocations taken between the cycles.
+#[derive(Clone, Copy, Debug, Default)]
+pub struct Conditions {
+    /// skip the additional compile entry points (second in-process observation)
+    pub skip_extra: bool,
+    /// collect the registry lines for the model ops (parent only)
+    pub model_lines: bool,
+    pub pace_us: u64,
+    pub warmups: usize,
+    pub busy_heap: bool,
+}
+
+/// An unrelated project with labelled blocks of 3..8 statements (label names and positions differ
+/// from what the generator produces), compiled, run for three cycles and dropped.
+fn warm_up(round: usize) {
+    let mut src = String::new();
+    let mut conf = String::from("CONFIGURATION WarmCfg\nTASK WarmT (INTERVAL := T#1ms, PRIORITY := 0);\n");
+    for len in 3..=8usize {
+        for variant in 0..2usize {
+            let name = format!("Warm{len}v{variant}r{round}");
+            let label = if variant == 0 { "Skip" } else { "Done" };
+            let jump_at = (variant + round) % (len - 2);
+            let label_at = jump_at + 1 + (round + variant) % (len - jump_at - 1);
+            let _ = writeln!(src, "PROGRAM {name}\nVAR\n    n : DINT := 0;\nEND_VAR");
+            for i in 0..len {
+                if i == jump_at {
+                    let _ = writeln!(src, "JMP {label};");
+                } else if i == label_at {
+                    let _ = writeln!(src, "{label}: n := n + 1;");
+                } else {
+                    let _ = writeln!(src, "n := n + {};", 2 + i);
+                }
+            }
+            let _ = writeln!(src, "END_PROGRAM\n");
+            if variant == 0 {
+                let _ = writeln!(conf, "PROGRAM I{name} WITH WarmT : {name};");
+            } else {
+                let _ = writeln!(conf, "PROGRAM I{name} : {name};");
+            }
+        }
+    }
+    conf.push_str("END_CONFIGURATION\n");
+    src.push_str(&conf);
+    let session = CompileSession::from_source(src);
+    if let Ok(mut rt) = session.build_runtime() {
+        for _ in 0..3 {
+            rt.advance_time(Duration::from_millis(1));
+            let _ = rt.execute_cycle();
+        }
+    }
+}
+
 /// `observe_inner` under `catch_unwind`: a panic of the real code is an observation ("panic"), the
 /// same in every process if it is deterministic.
-pub fn observe(case: &CaseInput, pace_us: u64) -> Observation {
-    match std::panic::catch_unwind(std::panic::AssertUnwindSafe(|| observe_inner(case, pace_us))) {
+pub fn observe(case: &CaseInput, cond: Conditions) -> Observation {
+    match std::panic::catch_unwind(std::panic::AssertUnwindSafe(|| observe_inner(case, cond))) {
         Ok(o) => o,
         Err(_) => Observation {
+            model_lines: Vec::new(),
+            extra_compiles: Vec::new(),
             const_images: Vec::new(),
             hash_order: hash_order_probe(),
             compile: None,
@@ -260,11 +326,46 @@ pub fn observe(case: &CaseInput, pace_us: u64) -> Observation {
     }
 }
 
-fn observe_inner(case: &CaseInput, pace_us: u64) -> Observation {
+/// The other public compile entry points of `trust_runtime::harness`, on the same sources.
+fn extra_compiles(case: &CaseInput) -> Vec<(String, Result<Vec<u8>, String>)> {
+    use trust_runtime::harness as h;
+    let texts: Vec<&str> = case.files.iter().map(|(_, t)| t.as_str()).collect();
+    let paths: Vec<&str> = case.files.iter().map(|(p, _)| p.as_str()).collect();
+    let enc = |m: Result<BytecodeModule, h::CompileError>| -> Result<Vec<u8>, String> {
+        m.map_err(|e| e.to_string())?.encode().map_err(|e| e.to_string())
+    };
+    let single = texts.len() == 1;
+    let mut v = Vec::new();
+    // always: the path-labelled function API (debug map labelled with the caller's paths)
+    if single {
+        v.push(("bytes_from_source_with_path".to_string(), h::bytecode_bytes_from_source_with_path(texts[0], paths[0]).map_err(|e| e.to_string())));
+    } else {
+        v.push(("bytes_from_sources_with_paths".to_string(), h::bytecode_bytes_from_sources_with_paths(&texts, &paths).map_err(|e| e.to_string())));
+    }
+    match (case.entry_variant, single) {
+        (0, true) => v.push(("bytes_from_source".to_string(), h::bytecode_bytes_from_source(texts[0]).map_err(|e| e.to_string()))),
+        (0, false) => v.push(("bytes_from_sources".to_string(), h::bytecode_bytes_from_sources(&texts).map_err(|e| e.to_string()))),
+        (1, true) => v.push(("module_from_source_with_path".to_string(), enc(h::bytecode_module_from_source_with_path(texts[0], paths[0])))),
+        (1, false) => v.push(("module_from_sources_with_paths".to_string(), enc(h::bytecode_module_from_sources_with_paths(&texts, &paths)))),
+        (_, true) => v.push(("module_from_source".to_string(), enc(h::bytecode_module_from_source(texts[0])))),
+        (_, false) => v.push(("module_from_sources".to_string(), enc(h::bytecode_module_from_sources(&texts)))),
+    }
+    v
+}
+
+fn observe_inner(case: &CaseInput, cond: Conditions) -> Observation {
+    let pace_us = cond.pace_us;
+    for round in 0..cond.warmups {
+        warm_up(round);
+    }
     let mut obs = Observation::default();
     obs.hash_order = hash_order_probe();
     let session = case.session();
     obs.compile = Some(session.build_bytecode_bytes().map_err(|e| e.to_string()));
+    if !cond.skip_extra {
+        obs.extra_compiles = extra_compiles(case);
+    }
+    let mut busy: Vec<Vec<u8>> = Vec::new();
     let mut rt = match session.build_runtime() {
         Ok(rt) => rt,
         Err(e) => {
@@ -272,6 +373,9 @@ fn observe_inner(case: &CaseInput, pace_us: u64) -> Observation {
             return obs;
         }
     };
+    if cond.model_lines {
+        obs.model_lines = registry_lines(&rt);
+    }
     let control = rt.enable_debug();
     let _ = control.drain_runtime_events();
     let mut steady = true;
@@ -326,6 +430,16 @@ fn observe_inner(case: &CaseInput, pace_us: u64) -> Observation {
         obs.cycles.push(dump);
         if pace_us > 0 {
             std::thread::sleep(std::time::Duration::from_micros(pace_us));
+        }
+        if cond.busy_heap {
+            // unrelated allocations of assorted sizes, kept alive: they only change which addresses
+            // the allocator hands out next
+            for j in 0..24usize {
+                busy.push(vec![j as u8; 16 + (obs.cycles.len() * 53 + j * 29) % 700]);
+            }
+            if busy.len() > 96 {
+                busy.drain(0..40);
+            }
         }
     }
     obs
@@ -393,18 +507,24 @@ fn child_main(args: &Args, k: usize) -> i32 {
     for _ in 0..k {
         let _ = std::collections::HashMap::<u32, u32>::new();
     }
-    let pace = if k % 3 == 1 { 300 } else { 0 };
+    let cond = Conditions {
+        skip_extra: false,
+        model_lines: false,
+        pace_us: if k % 3 == 1 { 300 } else { 0 },
+        warmups: args.extra_usize("warm", 0),
+        busy_heap: args.extra_usize("busy", 0) == 1,
+    };
     let obs = if k % 2 == 0 {
         // run on a secondary thread: other thread-local hash keys, other stack
         let case2 = case.clone();
         std::thread::Builder::new()
             .stack_size(64 * 1024 * 1024)
-            .spawn(move || observe(&case2, pace))
+            .spawn(move || observe(&case2, cond))
             .expect("spawn")
             .join()
             .unwrap_or_default()
     } else {
-        observe(&case, pace)
+        observe(&case, cond)
     };
     drop(junk);
     let stdout = std::io::stdout();
@@ -418,6 +538,16 @@ fn child_main(args: &Args, k: usize) -> i32 {
         }
         None => {
             let _ = writeln!(w, "C none -");
+        }
+    }
+    for (label, r) in &obs.extra_compiles {
+        match r {
+            Ok(b) => {
+                let _ = writeln!(w, "X {label} ok {}", hex(b));
+            }
+            Err(e) => {
+                let _ = writeln!(w, "X {label} err {}", hex(e.as_bytes()));
+            }
         }
     }
     if let Some(e) = &obs.build_error {
@@ -443,6 +573,13 @@ fn parse_child_output(text: &str) -> Result<Observation, String> {
                     "err" => Some(Err(String::from_utf8_lossy(&unhex(ws[2])).to_string())),
                     _ => None,
                 }
+            }
+            Some("X") => {
+                let r = match ws[2] {
+                    "ok" => Ok(unhex(ws[3])),
+                    _ => Err(String::from_utf8_lossy(&unhex(ws[3])).to_string()),
+                };
+                obs.extra_compiles.push((ws[1].to_string(), r));
             }
             Some("B") => obs.build_error = Some(String::from_utf8_lossy(&unhex(ws[1])).to_string()),
             Some("H") => obs.hash_order = ws.get(1).map(|s| s.to_string()).unwrap_or_default(),
@@ -494,17 +631,8 @@ struct ModelOps {
 }
 
 /// The model-vs-implementation operations derived from the parent's runtime and decoded container.
-fn model_ops(case: &CaseInput, bytes: &[u8]) -> Result<ModelOps, String> {
-    let rt = case.session().build_runtime().map_err(|e| e.to_string())?;
-    let module = BytecodeModule::decode(bytes).map_err(|e| e.to_string())?;
-    let strings = match module.section(SectionId::StringTable) {
-        Some(SectionData::StringTable(t)) => t.entries.clone(),
-        _ => return Err("no string table".into()),
-    };
-    let index = match module.section(SectionId::PouIndex) {
-        Some(SectionData::PouIndex(i)) => i.clone(),
-        _ => return Err("no pou index".into()),
-    };
+/// The runtime's registries as seen through its public API (input of the PouIdMap / vtable models).
+fn registry_lines(rt: &Runtime) -> Vec<String> {
     let hx = |s: &str| hex(s.as_bytes());
     let mut lines = Vec::new();
     lines.push(format!("names program {}", join(rt.programs().keys().map(|k| hx(k)), " ")));
@@ -528,6 +656,21 @@ fn model_ops(case: &CaseInput, bytes: &[u8]) -> Result<ModelOps, String> {
             lines.push(format!("base {} {}", hx(k), hx(b)));
         }
     }
+    lines
+}
+
+fn model_ops(names: &[String], bytes: &[u8]) -> Result<ModelOps, String> {
+    let module = BytecodeModule::decode(bytes).map_err(|e| e.to_string())?;
+    let strings = match module.section(SectionId::StringTable) {
+        Some(SectionData::StringTable(t)) => t.entries.clone(),
+        _ => return Err("no string table".into()),
+    };
+    let index = match module.section(SectionId::PouIndex) {
+        Some(SectionData::PouIndex(i)) => i.clone(),
+        _ => return Err("no pou index".into()),
+    };
+    let hx = |s: &str| hex(s.as_bytes());
+    let mut lines = names.to_vec();
     lines.push("pouindex".into());
     let rows: Vec<String> = index
         .entries
@@ -600,23 +743,92 @@ fn model_ops(case: &CaseInput, bytes: &[u8]) -> Result<ModelOps, String> {
     Ok(ModelOps { lines, strings: strings.len(), pous: index.entries.len(), sections })
 }
 
-fn child_command(exe: &std::path::Path, file: &str, i: usize) -> std::process::Command {
+/// Everything that differs between the children and must not matter: working directory (with the
+/// labelled source files present, present with other contents, absent, reached through a symlinked
+/// directory), HOME/TMPDIR/LANG/TZ, argv[0], allocator tuning, environment size, earlier work in
+/// the observing thread, unrelated live allocations.
+fn child_command(exe: &std::path::Path, file: &str, i: usize, dirs: &[std::path::PathBuf]) -> std::process::Command {
+    use std::os::unix::process::CommandExt as _;
     let mut cmd = std::process::Command::new(exe);
-    cmd.arg("c05")
+    cmd.arg0(["vharness", "/usr/bin/trust-runtime", "./a.out", "x", "vharness-child"][i % 5])
+        .arg("c05")
         .arg("--child")
         .arg(i.to_string())
         .arg("--in")
         .arg(file)
+        .arg("--warm")
+        .arg((i % 3).to_string())
+        .arg("--busy")
+        .arg(if i % 2 == 1 { "1" } else { "0" })
         // different environment size => different initial stack layout
         .env("VERIF_C05_PAD", "x".repeat(i * 97 % 1500))
+        .env("LANG", ["C", "de_DE.UTF-8", "tr_TR.UTF-8", "en_US.UTF-8", "ja_JP.UTF-8"][i % 5])
+        .env("LC_ALL", ["C", "de_DE.UTF-8", "tr_TR.UTF-8", "en_US.UTF-8", "POSIX"][i % 5])
+        .env("TZ", ["UTC", "Asia/Kathmandu", "America/St_Johns", "Pacific/Chatham", "Europe/Berlin"][i % 5])
+        .env("MALLOC_PERTURB_", (i * 37 % 255).to_string())
         .stdin(std::process::Stdio::null())
         .stdout(std::process::Stdio::piped())
         .stderr(std::process::Stdio::piped());
+    match i % 4 {
+        1 => {
+            cmd.env("GLIBC_TUNABLES", "glibc.malloc.tcache_count=0");
+        }
+        2 => {
+            cmd.env("GLIBC_TUNABLES", "glibc.malloc.tcache_count=0:glibc.malloc.mxfast=0");
+            cmd.env("MALLOC_ARENA_MAX", "1");
+        }
+        3 => {
+            cmd.env("MALLOC_ARENA_MAX", "8");
+            cmd.env("MALLOC_TOP_PAD_", "4096");
+        }
+        _ => {}
+    }
+    if !dirs.is_empty() {
+        let d = &dirs[(i - 1) % dirs.len()];
+        cmd.current_dir(d);
+        cmd.env("HOME", d);
+        cmd.env("TMPDIR", d);
+        cmd.env("PWD", d);
+    }
     cmd
 }
 
+/// Directory layout for one case: `a/` holds the labelled files, `b/` holds files of the same
+/// names with other contents, `c/` is empty, `d` is a symlink to `a`, `e/` reaches the files of `a`
+/// through symlinked sub-directories.
+fn prepare_dirs(root: &std::path::Path, case: &CaseInput) -> Vec<std::path::PathBuf> {
+    let mk = |sub: &str| root.join(sub);
+    let mut dirs = Vec::new();
+    for sub in ["a", "b", "c", "e"] {
+        let _ = std::fs::create_dir_all(mk(sub));
+    }
+    for (p, t) in &case.files {
+        for (sub, text) in [("a", t.clone()), ("b", format!("(* other contents *)\n{}", t.len()))] {
+            let full = mk(sub).join(p);
+            if let Some(parent) = full.parent() {
+                let _ = std::fs::create_dir_all(parent);
+            }
+            let _ = std::fs::write(&full, text);
+        }
+    }
+    let _ = std::os::unix::fs::symlink(mk("a"), mk("d"));
+    // e/<top-level entry> -> ../a/<top-level entry>
+    if let Ok(rd) = std::fs::read_dir(mk("a")) {
+        for ent in rd.flatten() {
+            let _ = std::os::unix::fs::symlink(ent.path(), mk("e").join(ent.file_name()));
+        }
+    }
+    for sub in ["a", "b", "c", "d", "e"] {
+        dirs.push(mk(sub));
+    }
+    dirs
+}
+
 /// Upper bound for one child (a case takes about a second; the bound only guards against a hang).
-const CHILD_TIMEOUT_S: u64 = 180;
+const CHILD_TIMEOUT_S: u64 = 45;
+/// Upper bound for one in-process observation; a thread that exceeds it is abandoned (it cannot be
+/// killed) and the observation is recorded as `hang`.
+const PARENT_TIMEOUT_S: u64 = 45;
 
 fn collect_child(p: std::io::Result<std::process::Child>) -> Result<Observation, String> {
     use std::io::Read as _;
@@ -644,7 +856,18 @@ fn collect_child(p: std::io::Result<std::process::Child>) -> Result<Observation,
                 if std::time::Instant::now() >= deadline {
                     let _ = child.kill();
                     let _ = child.wait();
-                    break Err(format!("child did not finish within {CHILD_TIMEOUT_S} s (killed)"));
+                    let _ = out_reader.join();
+                    let _ = err_reader.join();
+                    // a run that never finishes is an observation of its own (not retried)
+                    return Ok(Observation {
+                        model_lines: Vec::new(),
+                        extra_compiles: Vec::new(),
+                        const_images: Vec::new(),
+                        hash_order: String::new(),
+                        compile: None,
+                        build_error: Some("hang".into()),
+                        cycles: Vec::new(),
+                    });
                 }
                 std::thread::sleep(std::time::Duration::from_millis(3));
             }
@@ -664,8 +887,8 @@ fn collect_child(p: std::io::Result<std::process::Child>) -> Result<Observation,
     parse_child_output(&String::from_utf8_lossy(&out))
 }
 
-fn spawn_children(exe: &std::path::Path, file: &str, k: usize) -> Vec<Result<Observation, String>> {
-    let procs: Vec<_> = (1..=k).map(|i| child_command(exe, file, i).spawn()).collect();
+fn spawn_children(exe: &std::path::Path, file: &str, k: usize, dirs: &[std::path::PathBuf]) -> Vec<Result<Observation, String>> {
+    let procs: Vec<_> = (1..=k).map(|i| child_command(exe, file, i, dirs).spawn()).collect();
     procs
         .into_iter()
         .enumerate()
@@ -679,12 +902,43 @@ fn spawn_children(exe: &std::path::Path, file: &str, k: usize) -> Vec<Result<Obs
             while r.is_err() && attempts < 2 {
                 attempts += 1;
                 std::thread::sleep(std::time::Duration::from_millis(200 * attempts));
-                r = collect_child(child_command(exe, file, idx + 1).spawn());
+                r = collect_child(child_command(exe, file, idx + 1, dirs).spawn());
             }
             r
         })
         .collect()
 }
+
+/// Runs `observe` on a thread of its own and gives up after `PARENT_TIMEOUT_S`: an execution that
+/// never finishes (e.g. a jump that goes backwards for ever) is an observation, not a reason for the
+/// whole check to stall.  `hung` counts abandoned threads (each keeps a core busy until exit).
+fn observe_guarded(case: &CaseInput, cond: Conditions, hung: &std::sync::atomic::AtomicUsize) -> Observation {
+    let (tx, rx) = std::sync::mpsc::channel();
+    let case2 = case.clone();
+    let spawned = std::thread::Builder::new().stack_size(64 * 1024 * 1024).spawn(move || {
+        let _ = tx.send(observe(&case2, cond));
+    });
+    if spawned.is_err() {
+        return observe(case, cond);
+    }
+    match rx.recv_timeout(std::time::Duration::from_secs(PARENT_TIMEOUT_S)) {
+        Ok(o) => o,
+        Err(_) => {
+            hung.fetch_add(1, std::sync::atomic::Ordering::SeqCst);
+            Observation {
+                model_lines: Vec::new(),
+                extra_compiles: Vec::new(),
+                const_images: Vec::new(),
+                hash_order: hash_order_probe(),
+                compile: None,
+                build_error: Some("hang".into()),
+                cycles: Vec::new(),
+            }
+        }
+    }
+}
+
+static HUNG_THREADS: std::sync::atomic::AtomicUsize = std::sync::atomic::AtomicUsize::new(0);
 
 pub fn run_case(n: u64, case: &CaseInput, children: usize, tmp_dir: &std::path::Path, out: &mut Out) -> Result<(), String> {
     let exe = std::env::current_exe().map_err(|e| e.to_string())?;
@@ -695,24 +949,31 @@ pub fn run_case(n: u64, case: &CaseInput, children: usize, tmp_dir: &std::path::
     // children first (they run in parallel with the parent's own observation)
     let exe2 = exe.clone();
     let file2 = file_s.clone();
-    let handle = std::thread::spawn(move || spawn_children(&exe2, &file2, children));
-    let parent = observe(case, 0);
+    let case_root = tmp_dir.join(format!("case_{n}.d"));
+    let dirs = prepare_dirs(&case_root, case);
+    let handle = std::thread::spawn(move || spawn_children(&exe2, &file2, children, &dirs));
+    let parent = observe_guarded(case, Conditions { model_lines: true, ..Conditions::default() }, &HUNG_THREADS);
     // the same process, a second time ("in the same or in different processes"): strictly after the
     // first (the property does not speak about concurrent compilations inside one process), but on
     // another thread, i.e. with other thread-local RandomState keys and another stack
-    let case2 = case.clone();
-    let parent2 = std::thread::Builder::new()
-        .stack_size(64 * 1024 * 1024)
-        .spawn(move || observe(&case2, 0))
-        .map_err(|e| e.to_string())?
-        .join()
-        .map_err(|_| "second in-process observation panicked".to_string())?;
+    let parent2 = observe_guarded(
+        case,
+        Conditions { skip_extra: true, model_lines: false, pace_us: 0, warmups: 1, busy_heap: true },
+        &HUNG_THREADS,
+    );
     let kids = handle.join().map_err(|_| "child thread panicked".to_string())?;
     let _ = std::fs::remove_file(&file);
+    let _ = std::fs::remove_dir_all(&case_root);
 
     out.line(format!("case {n}"));
     for l in &lines {
         out.line(l);
+    }
+    for (who, o) in [("parent", &parent), ("parent-2nd", &parent2)] {
+        if o.build_error.as_deref() == Some("hang") {
+            out.line(format!("# {who}: the observation did not finish within {PARENT_TIMEOUT_S} s (abandoned)"));
+            out.count("in_process_hang");
+        }
     }
     let mut all: Vec<(String, Observation)> = vec![("parent-2nd".to_string(), parent2)];
     for (i, k) in kids.into_iter().enumerate() {
@@ -724,6 +985,8 @@ pub fn run_case(n: u64, case: &CaseInput, children: usize, tmp_dir: &std::path::
                 all.push((
                     format!("child-{}", i + 1),
                     Observation {
+                        model_lines: Vec::new(),
+                        extra_compiles: Vec::new(),
                         const_images: Vec::new(),
                         hash_order: String::new(),
                         compile: None,
@@ -747,7 +1010,7 @@ pub fn run_case(n: u64, case: &CaseInput, children: usize, tmp_dir: &std::path::
     let mut strings = 0;
     let mut pous = 0;
     if let Some(Ok(bytes)) = &parent.compile {
-        match model_ops(case, bytes) {
+        match model_ops(&parent.model_lines, bytes) {
             Ok(m) => {
                 for l in &m.lines {
                     out.line(l);
@@ -792,6 +1055,29 @@ pub fn run_case(n: u64, case: &CaseInput, children: usize, tmp_dir: &std::path::
                 out.count("diagnostics_text_differs");
             }
         }
+    }
+    // the other public compile entry points, each compared across the processes
+    for (k, (label, pr)) in parent.extra_compiles.iter().enumerate() {
+        let dg = |r: Option<&(String, Result<Vec<u8>, String>)>| match r {
+            Some((_, Ok(b))) => format!("ok:{}", digest(b)),
+            Some((_, Err(_))) => "err".to_string(),
+            None => "none".to_string(),
+        };
+        let pdg = dg(Some(&(label.clone(), pr.clone())));
+        let others: Vec<&(String, Observation)> = all.iter().filter(|(w, _)| w != "parent-2nd").collect();
+        out.line(format!("xentry {label} {}", join(others.iter().map(|(_, o)| dg(o.extra_compiles.get(k))), " ")));
+        out.line(format!("impl {pdg}"));
+        for (who, o) in others {
+            if dg(o.extra_compiles.get(k)) != pdg {
+                let detail = match (pr, o.extra_compiles.get(k)) {
+                    (Ok(a), Some((_, Ok(b)))) => section_diff(a, b),
+                    _ => "ok/err class differs".into(),
+                };
+                out.line(format!("# diverge xentry {label} parent vs {who}: {detail}"));
+                out.count("diverge_entry");
+            }
+        }
+        out.count(&format!("entry_{label}"));
     }
     // cross-process: per-cycle dumps
     let ncycles = parent.cycles.len();
@@ -877,6 +1163,7 @@ pub fn run(args: &Args) -> i32 {
         let text = std::fs::read_to_string(path).expect("probe file");
         let case = CaseInput {
             with_paths: false,
+            entry_variant: 0,
             files: vec![("probe.st".into(), text)],
             bool_inputs: vec![],
             int_inputs: vec![],
@@ -885,7 +1172,7 @@ pub fn run(args: &Args) -> i32 {
             const_ranges: vec![],
             trace: (0..3).map(|_| Step { dt_ns: 10_000_000, bools: vec![], ints: vec![], restart: 0 }).collect(),
         };
-        let obs = observe(&case, 0);
+        let obs = observe(&case, Conditions::default());
         match &obs.compile {
             Some(Ok(b)) => println!("compile ok: {} bytes", b.len()),
             Some(Err(e)) => println!("compile error: {e}"),
@@ -927,6 +1214,11 @@ pub fn run(args: &Args) -> i32 {
             return 3;
         }
         out.count("cases");
+        if HUNG_THREADS.load(std::sync::atomic::Ordering::SeqCst) >= 3 {
+            // every abandoned thread keeps a core busy: stop generating, report what was seen
+            out.count("stopped_after_hangs");
+            break;
+        }
     }
     let _ = std::fs::remove_dir_all(&tmp_dir);
     out.add("harness_wall_ms", started.elapsed().as_millis() as u64);
